@@ -13,6 +13,10 @@ NOISE_NOTE = (" About half of the cases are evaluated after 'history noise': a s
               "(including calls that fail: malformed proofs, failing writers, un-normalisable elements, trusted decoding of bad "
               "points, large-then-small MSMs and commitments), because results must not depend on what ran before.")
 
+CONC_NOTE = (" A quarter of the shard processes (all in the thorough tier) finally evaluate a few thousand further generated cases from 8 "
+             "goroutines at once, each goroutine on its own cases, against the same oracle (a result that is only wrong while other "
+             "callers are active must not hide behind a single-threaded harness).")
+
 COMMON_ASSUMPTIONS = [
     "the independent reference (harness/ref: math/big + gnark-crypto base field, validated at start-up against the "
     "cross-implementation vectors) is correct",
@@ -122,7 +126,7 @@ PROPS = {
                 "subgroup, off-curve x, constants 0,1,2,p-1,p,p+1,2p,2^255,2^256-1,r,(p+-1)/2, uniform, valid with one bit "
                 "flipped}; for the uncompressed form the y half from {larger root, smaller root, y+p, y+1, 0, uniform, x}; "
                 "lengths 0..80; plus a deterministic sweep of all constant pairs. Non-trivial = accepted input, or rejected "
-                "input failing exactly one clause of the predicate; distinct by (form, bytes)." + NOISE_NOTE,
+                "input failing exactly one clause of the predicate; distinct by (form, bytes)." + NOISE_NOTE + CONC_NOTE,
         "oracle": "reference acceptance predicate (length, canonical coordinates, on curve via math/big ModSqrt, 1-a*x^2 a "
                   "non-zero square via Jacobi, canonical y) evaluated clause by clause; on accept: exact affine equality with "
                   "the reference decode, r*P in the identity class by reference arithmetic, re-encoding returns the input; no "
@@ -143,7 +147,7 @@ PROPS = {
                 "projective rescaling and sign flip through the hook, adding the decoded 2-torsion point, collision makers "
                 "(P+Q-Q, (s+t)P vs sP+tP, -P vs (r-1)P, P-P, Set). All pairs of the final pool are compared. Non-trivial = a "
                 "history whose pool contains both a pair that is equal with different (X,Y,Z) triples and an unequal pair; "
-                "distinct by the history." + NOISE_NOTE,
+                "distinct by the history." + NOISE_NOTE + CONC_NOTE,
         "oracle": "reference arithmetic on the raw coordinates (hook): P.Equal(Q) == Q.Equal(P) == reference class equality == "
                   "(P.Bytes() == Q.Bytes()); Bytes() == reference compression; decode(Bytes()) succeeds and equals P; reflexive; "
                   "never true against the zero value; every operation result is a valid curve point",
@@ -159,7 +163,7 @@ PROPS = {
                               (1, None), (16, None), (16, 5), (7, None), (16, None), (2, None), (16, 7), (16, None))]},
         "rule": "pool histories as in C07 (3..24 calls) plus a batch of length {0,1,2,3,15,16,17,100,255,256,257,300,uniform<=300} "
                 "of pool pointers (random with repeats / sequential / triplicated). Non-trivial = the pool contains an element "
-                "with Z != 1 (results of MSM, table, GLV, rescaling paths); distinct by the case." + NOISE_NOTE,
+                "with Z != 1 (results of MSM, table, GLV, rescaling paths); distinct by the case." + NOISE_NOTE + CONC_NOTE,
         "oracle": "reference x/y mod p read little-endian mod r from the raw coordinates; equal values iff reference-equal "
                   "elements over all pool pairs; BatchMapToScalarField equals the single call position by position, reports a "
                   "length mismatch, and leaves every input the same group element; destination scalars start dirty",
@@ -175,7 +179,7 @@ PROPS = {
                 "patterns, window recipes, small Montgomery representation, uniform) and a list of GLV edge values (lambda, "
                 "lambda+-1, r-lambda, j*lambda, 2^63..2^252 +-, r/2, sqrt r); aliasing pattern {fresh receiver, receiver=p1, "
                 "receiver=p2, p1=p2, all three}; deterministic sweep of every edge scalar on identity/(0,-1)/G/CRS in all "
-                "representations. Non-trivial = aliased receiver, non-plain or identity-class operand, or an edge scalar." + NOISE_NOTE,
+                "representations. Non-trivial = aliased receiver, non-plain or identity-class operand, or an edge scalar." + NOISE_NOTE + CONC_NOTE,
         "oracle": "differential against the reference group law (fast backend on all cases, math/big backend on a 1/16 sample), "
                   "compared up to Banderwagon equivalence on raw coordinates; results must be valid curve points; operands that "
                   "are not the receiver remain the same group element; laws (s+t)P=sP+tP, s(P+Q)=sP+sQ, 0*P=id, (r-1)P+P=id, P-P=id, "
@@ -214,7 +218,7 @@ PROPS = {
                 "recipe, points from every source and representation (optionally appended through one reused variable), four "
                 "protocol labels; each history is run twice and once more with one change (label / message / swap of two "
                 "self-delimiting operations / protocol label / dropped operation). Non-trivial = >= 2 challenges, or > 1024 "
-                "pending bytes, or an empty message, or a non-normalised point; distinct by the history." + NOISE_NOTE,
+                "pending bytes, or an empty message, or a non-normalised point; distinct by the history." + NOISE_NOTE + CONC_NOTE,
         "oracle": "model-based: the reference transcript (one byte buffer + crypto/sha256, little-endian reduction mod r, "
                   "re-absorption under the challenge label, anchored to the five published vectors) executes the same history; "
                   "every challenge must be equal; identical histories give identical challenges; a change that alters the "
@@ -262,7 +266,7 @@ PROPS = {
                 "with the other blocks 0 / 0xFF / seed-dependent (enumerated completely in both tiers, for SqrtPrecomp and for "
                 "GetPointFromX with both sign choices); all 2^k-th roots of unity; 0, 1, p-1; rapid cases: dyadic with per-block "
                 "classes, constants (small, p-k, 2^k, 0..100000), uniform, explicit squares and non-squares, x coordinates of "
-                "valid subgroup points, abscissas whose two ordinates lie next to p/2 (share their upper limbs). Non-trivial = a non-trivial 2-adic component (dlog != 0) or a root of unity.",
+                "valid subgroup points, abscissas whose two ordinates lie next to p/2 (share their upper limbs). Non-trivial = a non-trivial 2-adic component (dlog != 0) or a root of unity." + CONC_NOTE,
         "oracle": "math/big: residue iff Jacobi = 1 (or v = 0); returned root squared == v; nil iff non-residue; input of the square root unchanged; "
                   "the first square roots of every process are taken by 16 goroutines at once; GetPointFromX (fresh or reused "
                   "argument variable) nil iff (a x^2-1)/(d x^2-1) is a non-residue (ModSqrt), otherwise exactly (x, larger|smaller "
@@ -285,7 +289,7 @@ PROPS = {
                 "the field (multiples of r-1, y + k(r-1), y<<130); BatchInvert of length 0..5000 with zeros at chosen positions; plus rapid cases (boundary / sparse-bit / small-value "
                 "/ uniform operands, all aliasing patterns). Run in two build configurations (default with ADX detection, "
                 "-tags noadx), each also calling the portable generic functions through the hook. Non-trivial = (configuration, "
-                "boundary operand pair / element) (counted, distinct by construction).",
+                "boundary operand pair / element) (counted, distinct by construction)." + CONC_NOTE,
         "oracle": "math/big on the raw limbs: value = limbs*2^-256 mod r, operation on integers mod r, expected limbs = value*2^256 "
                   "mod r; results must be bit-identical to that fully reduced representation; Sqrt nil iff Jacobi = -1 and "
                   "root^2 = x; inverse of 0 is 0; operands unchanged",
@@ -304,7 +308,7 @@ PROPS = {
                 "included) with aliasing pattern {all distinct, all the same pointer, blocks of 3, two interleaved, random "
                 "repeats}; for the error path one un-normalisable element (zero value or Z=0) at a drawn position, and "
                 "deterministically at EVERY position of lists of length 1,2,3,4,5,8,17. Non-trivial = list with a repeated "
-                "pointer and a non-normalised element; distinct by the case." + NOISE_NOTE,
+                "pointer and a non-normalised element; distinct by the case." + NOISE_NOTE + CONC_NOTE,
         "oracle": "ElementsToBytes[i] == e_i.Bytes(); BatchToBytesUncompressed[i] == e_i.BytesUncompressedTrusted(); "
                   "BatchMapToScalarField[i] == single; the serialisers leave every element the same group element; BatchNormalize: "
                   "Z == 1 (hook) and reference-Equal to before; on the error path an error and every element bit-for-bit unchanged; "
@@ -323,7 +327,7 @@ PROPS = {
                 "{1,2,7,31,32,33,64,100,575,576}, final data returned together with io.EOF, error injected at offset k; writers "
                 "failing at the j-th Write call. Deterministic sweeps: every field x every replacement class, every write-fault "
                 "position, an injected read error at every offset 0..577, trailing bytes through every reader kind. "
-                "Non-trivial = rejected for exactly one reason, or accepted through a non-trivial reader, or a write-fault case." + NOISE_NOTE,
+                "Non-trivial = rejected for exactly one reason, or accepted through a non-trivial reader, or a write-fault case." + NOISE_NOTE + CONC_NOTE,
         "oracle": "reference parser: exactly 576 (544 consumed) bytes, every point a valid canonical subgroup encoding (reference "
                   "decoder), scalar < r, the stream delivers all bytes then EOF; Read succeeds iff the reference accepts; on "
                   "success decoded fields equal the reference decode, Write reproduces the bytes, Read(Write(p)).Equal(p); a "
@@ -386,7 +390,7 @@ PROPS = {
                 "random} (all 5^4 deterministic combinations swept), uniform, sparse, encodings of uniform scalars) plus a "
                 "deterministic sweep of every boundary value +-2; each string is given to SetBytes, SetBytesLE, "
                 "SetBytesLECanonical and ReadScalar twice on the same buffer. Non-trivial = length != 32 or integer value "
-                "(either endianness) >= r; distinct by the byte string.",
+                "(either endianness) >= r; distinct by the byte string." + CONC_NOTE,
         "oracle": "math/big: int(bytes) mod r on raw Montgomery limbs; canonical decoder accepts iff int < r; input buffer "
                   "compared before/after; second decode equals first; encoders compared with big-endian/little-endian "
                   "FillBytes",
